@@ -57,6 +57,16 @@ fn run(input: RunInput) -> ScenFuture {
         cfg.max_frame_size = frame_limit;
         // (also shorter than the time a slowly written request takes to arrive)
         cfg.inbound_request_timeout_ms = w.flag("h_inbound_timeout", 0.5).then(|| [20u64, 100, 300, 2_000][w.param("h_inbound_timeout_class", 0, 3) as usize]);
+        // H may also *dial* a hostile party on its own: a High-affinity entry of its known-peer
+        // table points at a listener that completes the handshake and then says nothing (never
+        // sends its version frame), so every background dial of it ends in the connect timeout
+        let silent_listener = w.flag("h_background_dials_a_silent_listener", 0.3);
+        if silent_listener {
+            cfg.connectivity_check_interval_ms = Some(w.param("h_connectivity_check_interval_ms", 150, 1_000) as u64);
+            cfg.connect_timeout_ms = Some(w.param("h_connect_timeout_ms", 200, 900) as u64);
+            cfg.connection_backoff_ms = Some(100);
+            cfg.max_connection_backoff_ms = Some(300);
+        }
         let echo = Svc::echo(&w);
         let slow = Svc::new(&w, Arc::new(|req: &Request<Bytes>| Plan { delay: Duration::from_millis(300), response: Response::new(req.body().clone()), hold: Duration::ZERO }));
         let router = anemo::Router::new()
@@ -91,6 +101,24 @@ fn run(input: RunInput) -> ScenFuture {
                 return w.finish();
             }
         };
+        let q_key = w.key_for(8);
+        let silent = adv_endpoint(&w, AdvSpec {
+            idx: 8, port: 7000, chain: vec![gen_cert(&q_key, "sim")], sign_key: q_key, present_client_cert: true,
+            idle_ms: 10_000, keep_alive_ms: Some(2_000), max_bidi: 100,
+        });
+        if silent_listener {
+            let ep = silent.ep.clone();
+            tokio::spawn(async move {
+                let mut keep = Vec::new();
+                while let Some(inc) = ep.accept().await {
+                    if let Ok(c) = inc.await {
+                        keep.push(c);
+                    }
+                }
+            });
+            h.net.known_peers().insert(anemo::types::PeerInfo { peer_id: public_key(&q_key), affinity: anemo::types::PeerAffinity::High, address: vec![silent.addr.into()] });
+            w.probe("background-dials-of-a-silent-listener");
+        }
         // whatever H's known-peer table says about the two (High or Allowed, with or without an
         // address) changes nothing about what a connected peer can do to it
         w.vary_known_peers(&h, &[(public_key(&adv_key), Some(adv.addr)), (p.peer_id, Some(p.addr))], true);
@@ -454,7 +482,7 @@ fn run(input: RunInput) -> ScenFuture {
         w.probe_n("hostile-wellformed-ok", adv_ok);
         w.sample("script", json!({"ops": kinds, "lossy": lossy, "h_max_bidi": max_bidi, "h_frame_limit": frame_limit}));
         let out = w.finish();
-        drop((h, p, q, adv));
+        drop((h, p, q, adv, silent));
         out
     })
 }
